@@ -65,6 +65,10 @@ def make_source(name: str, loc: str, ver: int, struct: dict) -> str:
                + "{{ block.super }}{% endblock %}")
     elif k == "base":
         src = head + "[{% block body %}base{% endblock %}]"
+    elif k == "ren_ns":      # namespace passed as a render argument: nested partial loads inside use it
+        src = head + "{% render '" + t + "', tenant: '" + struct.get("ns", "t2") + "' %}"
+    elif k == "inc_ns":      # include keyword arguments are locals: the cache key must not change
+        src = head + "{% include '" + t + "', tenant: '" + struct.get("ns", "t2") + "' %}"
     elif k == "shadow_assign":   # a LOCAL variable named like the namespace key must not change the cache key
         src = head + "{% assign tenant = '" + struct.get("ns", "t2") + "' %}{% include '" + t + "' %}"
     elif k == "shadow_for":
@@ -967,8 +971,8 @@ def gen_plan(seed: int, tier: str) -> dict:
     def struct():
         k = rng.choice(["plain", "plain", "plain", "inc", "incw", "ren", "renw", "ext", "base"])
         t = rng.choice(names)
-        if nskey and rng.random() < 0.15:
-            k = rng.choice(["shadow_assign", "shadow_for", "shadow_with", "shadow_capture"])
+        if nskey and rng.random() < 0.2:
+            k = rng.choice(["shadow_assign", "shadow_for", "shadow_with", "shadow_capture", "ren_ns", "ren_ns", "inc_ns"])
             return {"k": k, "t": t, "ns": rng.choice(TENANTS)}
         return {"k": k, "t": t}
 
